@@ -270,6 +270,34 @@ CLIP_SPECS = [
 ]
 
 
+ARRAY_EDGE = [
+    # a rectangle that starts on the first cell of an array formula's target and reaches over other cells
+    ({'sheets': [['Sheet1', {'A1': 1, 'A2': 2, 'A3': 3, 'E1': 5, 'E2': 'x'}]], 'names': {},
+      'arrays': [['Sheet1', 'D1:D3', '=A1:A3*2']], 'calc': None}, 'Sheet1!D1:E3', ((2, 5), (4, 'x'), (6, None))),
+    ({'sheets': [['Sheet1', {'A1': 1, 'A2': 2, 'A3': 3, 'D4': 7}]], 'names': {},
+      'arrays': [['Sheet1', 'D1:D3', '=A1:A3*2']], 'calc': None}, 'Sheet1!D1:D5', (2, 4, 6, 7, None)),
+    ({'sheets': [['Sheet1', {'A1': 1, 'A2': 2, 'A3': 3}]], 'names': {},
+      'arrays': [['Sheet1', 'D1:D3', '=A1:A3*2']], 'calc': None}, 'Sheet1!D1:D5', (2, 4, 6, None, None)),
+]
+
+
+def array_edge_cases(ctx):
+    for spec, text, want in ARRAY_EDGE:
+        for first in (True, False):
+            comp = wb.compile_mem(spec)
+            if not first:
+                for a in wb.all_addresses(spec):
+                    wb.outcome(comp.evaluate, a)
+            got = wb.outcome(comp.evaluate, text)
+            ctx.count('directed:array_edge_cases')
+            ctx.case(('array-edge', text, repr(spec['sheets']), first))
+            if got[0] != 'v' or not wb.same(got[1], want):
+                ctx.violation('range-from-array-formula-corner-over-other-cells',
+                              f'evaluate({text!r}) ({"first access" if first else "after evaluating every cell"}) '
+                              f'gives {got!r}; the cells hold {want!r}',
+                              {'kind': 'array-edge', 'spec': spec, 'path': text})
+
+
 def clip_edge_cases(ctx):
     """directed: unbounded forms whose clipping to the used area is one cell / empty"""
     for key, spec, text, want in CLIP_SPECS:
@@ -335,6 +363,7 @@ def run(ctx):
     rng = ctx.rng
     if ctx.shard == 0:
         clip_edge_cases(ctx)
+        array_edge_cases(ctx)
     if ctx.shard == 1 % ctx.nshards:
         context_books(ctx, rng)
     i = 0
@@ -355,6 +384,9 @@ def replay(ctx, case):
     import random
     if case.get('kind') == 'clip':
         clip_edge_cases(ctx)
+        return
+    if case.get('kind') == 'array-edge':
+        array_edge_cases(ctx)
         return
     book = Book(ctx, case['spec'], case['meta'])
     if case.get('kind') == 'order':
